@@ -66,6 +66,25 @@ for _src, _dsts in CAST_PAIRS.items():
 op("to_int", "xsimd::to_int(a)", "B", FLOAT_TYPES, "R:int")
 op("to_float", "xsimd::to_float(a)", "B", ["i32", "i64"], "R:float")
 op("nearbyint_as_int", "xsimd::nearbyint_as_int(a)", "B", FLOAT_TYPES, "R:int")
+# C09: reductions
+for _n in ("reduce_add", "reduce_max", "reduce_min"):
+    op(_n, "xsimd::%s(a)" % _n, "B", ALL_TYPES, "T")
+# C05: data movement
+op("zip_lo", "xsimd::zip_lo(a, b)", "BB", ALL_TYPES)
+op("zip_hi", "xsimd::zip_hi(a, b)", "BB", ALL_TYPES)
+op("swizzle_dyn", "xsimd::swizzle(a, *(xsimd::batch<xsimd::as_unsigned_integer_t<T>, A> const*)(void const*)p_b)", "BB", ALL_TYPES)
+op("compress", "xsimd::compress(a, m)", "BM", ALL_TYPES)
+op("expand", "xsimd::expand(a, m)", "BM", ALL_TYPES)
+op("extract_pair", "xsimd::extract_pair(a, b, (std::size_t)n)", "BBI", ALL_TYPES)
+for _k in (0, 1, 2, 3):
+    op("insert_%d" % _k, "xsimd::insert(a, s, xsimd::index<%d>())" % _k, "BS", ALL_TYPES)
+for _k in (0, 1, 4, 8, 12):
+    op("slide_left_%d" % _k, "xsimd::slide_left<%d>(a)" % _k, "B", INT_TYPES)
+    op("slide_right_%d" % _k, "xsimd::slide_right<%d>(a)" % _k, "B", INT_TYPES)
+for _k in (0, 1, 3):
+    op("rotate_left_%d" % _k, "xsimd::rotate_left<%d>(a)" % _k, "B", ALL_TYPES)
+    op("rotate_right_%d" % _k, "xsimd::rotate_right<%d>(a)" % _k, "B", ALL_TYPES)
+# constant index packs are generated per lane count by entries.const_pack_ops()
 # C04
 op("load_aligned", "B::load_aligned(p)", "p", ALL_TYPES)
 op("load_unaligned", "B::load_unaligned(p)", "p", ALL_TYPES)
@@ -109,9 +128,9 @@ def entry_text(opn, tid, aid):
             d = {"i32": "f32", "i64": "f64"}[tid]
         R = "xsimd::batch<%s, %s>" % (TYPES[d][0], A)
     else:
-        R = {"B": B, "M": M, "X": "uint64_t"}[ret]
-    return 'extern "C" void %s(%s* r%s) { typedef %s B; %s *r = %s; }\n' % (entry_name(opn, tid, aid), R, "".join(", " + p for p in params),
-                                                                         B, " ".join(prologue), expr)
+        R = {"B": B, "M": M, "X": "uint64_t", "T": T}[ret]
+    return 'extern "C" void %s(%s* r%s) { typedef %s B; typedef %s T; typedef %s A; %s *r = %s; }\n' % (
+        entry_name(opn, tid, aid), R, "".join(", " + p for p in params), B, T, A, " ".join(prologue), expr)
 
 
 def tu_text(cases, emulated=False):
